@@ -26,16 +26,22 @@ CONSTANTS Formats,               \* subset of {"delimited", "fixed", "excel", "o
           LengthDecls,           \* set of length declarations: sequences of items <<lo, hi>>, a limit is <<>> or <<n>>
           FixedWidths,           \* widths used for fixed-width fields
           MaxCell,               \* cells of length 0..MaxCell
-          StripBeforeEmptyGuard
+          StripBeforeEmptyGuard,
+          BlankCellSkipsCharGuard,  \* TRUE (shipped): a fixed-width cell of blanks only is an empty cell, whatever the allowed
+                                    \* characters are; FALSE: pinned code, its blanks are checked like data (D39)
+          StripsBlanksOnly          \* TRUE (shipped): only blanks are padding of fixed-width data; FALSE: pinned code strips
+                                    \* every kind of white space, a cell of tabs counts as empty (D40)
 
 None == <<>>
-Classes == {"b", "a", "d"}
+\* "t": white space that is no blank (a tab): data, not padding; its code point lies below every allowed-characters range used
+Classes == {"b", "a", "d", "t"}
 Cells == UNION {[1..n -> Classes] : n \in 0..MaxCell}
 
 \* how the data format restricts characters: "none" -- no allowed-characters range; "range" -- one item, the
 \* disallowed character lies above everything allowed; "gaps" -- several items, the disallowed character lies
 \* between allowed ones (its code point is above the blank's and below the other allowed character's)
-Restrictions == {"none", "range", "gaps"}
+\* "noblank" -- one item that starts above the blank (33...): the blank itself is not an allowed character
+Restrictions == {"none", "range", "gaps", "noblank"}
 Restricted(f) == f.restricted # "none"
 
 VARIABLES fld,      \* [fmt, emptyAllowed, length (declaration), restricted (one of Restrictions)]
@@ -51,11 +57,15 @@ InItem(n, it) == (it[1] = None \/ it[1][1] <= n) /\ (it[2] = None \/ n <= it[2][
 InLength(n, decl) == decl = <<>> \/ \E i \in 1..Len(decl) : InItem(n, decl[i])
 LowerLimit(decl) == decl[1][1][1]      \* fixed-width declarations are one exact item
 RECURSIVE StripLeft(_)
-StripLeft(s) == IF s # <<>> /\ Head(s) = "b" THEN StripLeft(Tail(s)) ELSE s
+Padding == IF StripsBlanksOnly THEN {"b"} ELSE {"b", "t"}
+StripLeft(s) == IF s # <<>> /\ Head(s) \in Padding THEN StripLeft(Tail(s)) ELSE s
 RECURSIVE StripRight(_)
-StripRight(s) == IF s # <<>> /\ s[Len(s)] = "b" THEN StripRight(SubSeq(s, 1, Len(s) - 1)) ELSE s
+StripRight(s) == IF s # <<>> /\ s[Len(s)] \in Padding THEN StripRight(SubSeq(s, 1, Len(s) - 1)) ELSE s
 Stripped(s) == StripRight(StripLeft(s))
-HasDisallowed(s) == \E i \in 1..Len(s) : s[i] = "d"
+AllBlank(s) == \A i \in 1..Len(s) : s[i] = "b"
+\* which characters the restriction r excludes
+Excluded(r, ch) == r # "none" /\ (ch \in {"d", "t"} \/ (ch = "b" /\ r = "noblank"))
+HasDisallowed(f, s) == \E i \in 1..Len(s) : Excluded(f.restricted, s[i])
 
 Fields == {[fmt |-> f, emptyAllowed |-> e, length |-> l, restricted |-> r] :
              f \in Formats \ {"fixed"}, e \in BOOLEAN, l \in LengthDecls, r \in Restrictions}
@@ -71,7 +81,7 @@ Keep == UNCHANGED <<fld, cell, hook>>
 \* fields.py:155-181
 GuardChars ==
   /\ stage = "chars" /\ Keep /\ UNCHANGED <<value, hookCalls>>
-  /\ IF Restricted(fld) /\ HasDisallowed(cell) THEN Reject("character")
+  /\ IF HasDisallowed(fld, cell) /\ ~(BlankCellSkipsCharGuard /\ fld.fmt = "fixed" /\ AllBlank(cell)) THEN Reject("character")
      ELSE stage' = (IF StripBeforeEmptyGuard THEN "strip" ELSE "empty") /\ UNCHANGED outcome
 \* fields.py:252-255 (its place in the pipeline is what the switch decides)
 Strip ==
@@ -103,7 +113,7 @@ Next == GuardChars \/ Strip \/ GuardEmpty \/ GuardLength \/ Value
 Spec == Init /\ [][Next]_vars
 
 (* ------------------------------ C03, from the property text ------------------------------ *)
-IsEmpty(f, c) == IF f.fmt = "fixed" THEN Stripped(c) = <<>> ELSE c = <<>>
+IsEmpty(f, c) == IF f.fmt = "fixed" THEN AllBlank(c) ELSE c = <<>>            \* "a cell consisting only of blanks"
 LengthOutside(f, c) == IF f.fmt = "fixed" THEN Len(c) > LowerLimit(f.length) ELSE ~InLength(Len(c), f.length)
 \* cases the property text does not decide: a blanks-only fixed-width cell that is longer than the field
 Undecided(f, c) == f.fmt = "fixed" /\ IsEmpty(f, c) /\ Len(c) > LowerLimit(f.length)
@@ -113,10 +123,10 @@ GuardsHold ==
          /\ (outcome[1] = "accept") <=> fld.emptyAllowed
          /\ outcome[1] = "accept" => outcome[2] = "empty"
          /\ hookCalls = 0                                              \* the rule is not consulted
-    /\ (~IsEmpty(fld, cell) /\ (LengthOutside(fld, cell) \/ (Restricted(fld) /\ HasDisallowed(cell)))) =>
+    /\ (~IsEmpty(fld, cell) /\ (LengthOutside(fld, cell) \/ HasDisallowed(fld, cell))) =>
          /\ outcome[1] = "reject"                                      \* whatever the type and rule would say
          /\ hookCalls = 0
-    /\ (~IsEmpty(fld, cell) /\ ~LengthOutside(fld, cell) /\ ~(Restricted(fld) /\ HasDisallowed(cell))) =>
+    /\ (~IsEmpty(fld, cell) /\ ~LengthOutside(fld, cell) /\ ~HasDisallowed(fld, cell)) =>
          /\ hookCalls = 1
          /\ (outcome[1] = "accept") <=> hook
          /\ outcome[1] = "accept" => outcome[2] = "native"
